@@ -155,8 +155,12 @@ func diffMap(old map[string]interface{}, newAny interface{}) interface{} {
 	// Build the diff.
 	d := make(map[string]interface{})
 
-	// Handle deleted fields.
+	// Handle deleted fields. The __key pseudo-field is not part of the value
+	// (StripKey removes it), so it never appears in a diff.
 	for k := range old {
+		if k == "__key" {
+			continue
+		}
 		if _, ok := new[k]; !ok {
 			d[k] = markRemoved()
 		}
@@ -164,6 +168,9 @@ func diffMap(old map[string]interface{}, newAny interface{}) interface{} {
 
 	// Handle changed fields.
 	for k, newV := range new {
+		if k == "__key" {
+			continue
+		}
 		if oldV, ok := old[k]; ok {
 			if innerD := Diff(oldV, newV); innerD != nil {
 				d[k] = innerD
